@@ -14,7 +14,8 @@ device without pages. Remap / Distribute take a **fresh** page for a virtual pag
 entry in place (`pageTable.Update`) and give the page it was mapped to **back** to the free list of its device
 (`releaseReplaced`) — when the allocator's record of the virtual address (keyed by the virtual address only)
 belongs to the calling process. AllocatePageWithGivenVAddr / preparePageForMigration deliberately keep the page
-they replace (the page migration controller still reads it). The ghost field `State.leaked` (no effect on `step`)
+they replace (the page migration controller still reads it; the driver releases it when the migration is complete:
+Props/C10Mig.lean). The ghost field `State.leaked` (no effect on `step`)
 counts the pages that were replaced and not given back. So
 
 * `|free| + |mapped| + leaked = |all|` after **every** history, and exactly `leaked` pages are lost
@@ -224,7 +225,10 @@ theorem conservation_needs_single_process :
   ⟨_, rfl, by decide, by unfold SingleProc; decide, by decide, by decide, by decide, by decide⟩
 
 /-- **No migration / AllocatePageWithGivenVAddr.** These two operations keep the page they replace on purpose (the
-page migration controller still copies from it; nothing in the driver gives it back afterwards): a single process
+page migration controller still copies from it; since the repair of finding `C10-migration-keeps-replaced-page` the
+driver gives it back — `ReleasePhysicalPage` — when the migration is complete: `migration_complete_conserves`,
+`conservation_full_with_migration` in Props/C10Mig.lean; a history that stops after the preparation, or a raw
+AllocatePageWithGivenVAddr, still has the page out of circulation): a single process
 allocates one page (0x1000 ↦ 0x2000) and calls AllocatePageWithGivenVAddr, resp. preparePageForMigration, for it
 (↦ 0x3000): physical page 0x2000 is neither free nor mapped. -/
 theorem conservation_migration_keeps_replaced_page :
